@@ -277,6 +277,7 @@ func genC04(seed uint64, idx int) *Plan {
 		p.Alerts = addAlerts(p.Alerts, ms.alerts)
 	}
 	p.AlertWriteFails = idx%9 == 4
+	p.CtxEndsAtAlert = idx%9 == 7
 	if len(p.Mutations) == 1 && p.Mutations[0].Kind == "outer-has-oe" && idx%2 == 0 {
 		// the rule about ech_outer_extensions in an outer hello does not depend
 		// on the server having keys
